@@ -273,6 +273,9 @@ pub fn run(tier: &str) -> i32 {
     ev.set("max_protocol_lines_per_cell", json!(s.max_lines));
     ev.set("inconclusive_runs", json!(s.inconclusive));
     ev.set("known_findings_seen", json!(v.known_seen()));
+    // Engine R: the same bound over real processes - the lines every node receives are read from its debug log
+    let real = crate::realparts::c14_real(&v, if thorough { 48 } else { 4 }, seed());
+    ev.set("real_processes", real.to_json());
     ev.violations = v.violation_count();
     ev.assumptions = vec![
         "bound per operation = (replicated changes it may produce) x (1 forward + S copies + S acks); changes: 0 for reads and refused writes, 1 for writes / administration, 1 for a conflict registration, 2 for a resolve (conflict record + resolved value)".into(),
@@ -282,6 +285,10 @@ pub fn run(tier: &str) -> i32 {
     ev.write();
     cleanup_scratch();
     let code = v.finish(tier);
+    if code == 0 && real.runs > 0 && (real.runs - real.inconclusive) * 2 < real.runs {
+        println!("INCONCLUSIVE property=C14 reason=the real-process part could judge only {} of {} runs", real.runs - real.inconclusive, real.runs);
+        return 2;
+    }
     if code == 0 && (s.cells.len() < 90 || s.inconclusive > s.clusters / 5 + 2) {
         println!("INCONCLUSIVE property=C14 reason=coverage floor not met ({} cells, {} inconclusive)", s.cells.len(), s.inconclusive);
         return 2;
